@@ -493,6 +493,26 @@ def directed_flood(names):
     return out
 
 
+# Finding F21 (regcomp bomb): StringMatcher::SetPattern hands client patterns to regcomp() unrestricted; glibc expands
+# interval expressions by repetition and nested ones multiply, so the 31-byte clause below keeps the (single-threaded)
+# server inside regcomp() for minutes and gigabytes -- nobody's ping is answered meanwhile.  Bounding pattern complexity is
+# a policy decision for the maintainer, so the cases are generated only when the finding is registered as `known` in
+# known_findings.json (match "regcomp-bomb") or when C07_REGEX_BOMB=1 asks for them.
+BOMB = "`(((a{1,100}){1,100}){1,100})"
+
+
+def bomb_enabled():
+    if os.environ.get("C07_REGEX_BOMB") == "1":
+        return True
+    return any("regcomp-bomb" in (e.get("match") or "") for e in vlib.load_findings("C07"))
+
+
+def bomb_cases(names):
+    K = names["PR_NAME_KEYS"]
+    return ["a;a;s:0:0:a=1;M:1:{c5,(%s,s,%s)};s:0:0:b=1" % (hexs(K), hexs(BOMB)),
+            "a;a;s:0:0:a=1;M:1:{c1,(%s,b,1)};s:0:0:b=1" % hexs("SUBSCRIBE:" + BOMB)]
+
+
 class CHECK(vlib.Check):
     prop = "C07"
     prop_file = "Properties_C07.v"
@@ -531,6 +551,9 @@ class CHECK(vlib.Check):
             out.append(("modelled", "M|" + g.case(rng.choice([8, 12, 20, 30]), rng.choice([2, 2, 3]))))
         for c in directed_flood(names):
             out.append(("flood-directed", "F|" + c))
+        if bomb_enabled():
+            for c in bomb_cases(names):
+                out.append(("flood-regcomp-bomb", "F|" + c))
         fl = Flood(rng, names)
         for i in range(n // 2):
             out.append(("flood", "F|" + fl.case(rng.choice([10, 20, 40]))))
@@ -551,19 +574,26 @@ class CHECK(vlib.Check):
                 return True
         return False
 
+    @staticmethod
+    def _bomb(f):
+        """a hang whose case carries nested interval expressions is the regcomp bomb (finding F21)"""
+        sig = f.get("signature", "")
+        return ("hang" in sig or "watchdog" in sig) and hexs("{1,100}){1,100}") in (f.get("case") or "")
+
     def signature(self, f):
         s = f.get("signature", "")
         m = re.search(r"ORACLE FAIL (\S+)", s)
         if m:
-            return "oracle: " + m.group(1)
-        return s
+            s = "oracle: " + m.group(1)
+        return s + (" regcomp-bomb" if self._bomb(f) else "")
 
     def fail_key(self, f):
         sig = f.get("signature", "")
+        tag = " regcomp-bomb" if self._bomb(f) else ""
         m = re.search(r"ORACLE FAIL (\S+)", sig)
         if m:
-            return ("oracle", m.group(1))
-        return (f["kind"], re.sub(r"op#\d+.*", "op#", sig))
+            return ("oracle", m.group(1) + tag)
+        return (f["kind"], re.sub(r"op#\d+.*", "op#", sig) + tag)
 
     def distribution(self, sc):
         d = {}
